@@ -66,12 +66,16 @@ CLAIMED = {
          "For each of the eight point types, each configured static variation and each event variation: 36 analog / 7 counter / all binary and double-bit values x flag octets (11 quick, 256 thorough) x 7 timestamps x index {0, 65535}; index sets; all orders of 3 events under a common-time-of-occurrence header (6 time differences incl. negative, mixed synchronisation). Real Database::update -> real OutstationTask response -> bytes -> (i) engine decoder (ii) library extract_measurements into a recording handler; both compared with the carry function (saturation + OVER_RANGE, truncation toward zero, f32 rounding, low 16 bits, packed only if plainly ONLINE, exact CTO reconstruction, never another index or another point's flags).",
          "Trusted: engine object decoders. 2^48 timestamps and f64 values are covered by boundary menus, not enumerated.",
          "DESIGN.md §5 C10", True),
+ "C15": ("model_checking",
+         "bounded-exhaustive exploration of all response histories delivered to the real master task, per kind of outstanding task, against an acceptance predicate, a confirm ledger and the handler call order",
+         "Eight kinds of outstanding task (none, user READ, DIRECT_OPERATE, SELECT step, OPERATE step, automatic DISABLE_UNSOLICITED, start-up integrity poll, file-information request) x every history to depth 3 (4) over 22 responses: ideal, with CON, first / middle / last fragment in and out of order, non-final without CON, sequence -1 / +1 / +8, foreign source, unsolicited null / data / duplicate / foreign / without CON / with a truncated object, truncated object, unknown object, IIN2 rejection, solicited with UNS bit, silence. Predicted and compared after every event: begin/end_fragment brackets (delivery exactly once, of the fragment on the wire), CONFIRM fragments written (exactly the accepted CON fragments, same sequence and UNS bit), task completion (ends / fails / must not succeed / must be ignored).",
+         "Trusted: engine codecs, DESIGN 2.3. A malformed or mis-flagged fragment may be ignored or may fail the task. Whether an accepted command/file response means success is C16's subject.",
+         "DESIGN.md §5 C15", True),
 }
 
 NOT_YET = {
  "C01": "designed in DESIGN §5 C01 (hostile-input sweeps + session states); check not built yet",
  "C02": "designed in DESIGN §5 C02 (paired master/outstation simulation); check not built yet",
- "C15": "designed in DESIGN §5 C15; check not built yet",
  "C16": "designed in DESIGN §5 C16; check not built yet",
  "C17": "designed in DESIGN §5 C17; check not built yet",
  "C18": "designed in DESIGN §5 C18; check not built yet",
